@@ -95,9 +95,37 @@ type Eth struct {
 	rxIn  int // RecvPacket calls entered
 	rxOut int // RecvPacket calls that returned a packet
 	close int
+	// fault injection: transmissions number failTx[i] (0 based, counted per handle) fail transiently
+	tx       int
+	failTx   map[int]bool
+	txFailed int
 }
 
+// SendFault makes transmissions From..From+Count-1 (0 based, counted per handle) on the Gen-th ethernet
+// handle (1 = first) created for an interface fail with an error, the way sendto() fails for a moment
+// with ENETDOWN/ENOBUFS while the socket stays open. Every other transmission works.
+type SendFault struct {
+	Gen   int `json:"gen"`
+	From  int `json:"from"`
+	Count int `json:"count"`
+}
+
+// ErrTransient is what a transmission hit by a SendFault returns.
+var ErrTransient = fmt.Errorf("sendto: network is down (injected transient fault)")
+
 func (e *Eth) SendPacket(dst ethernet.MACAddr, pkt []byte) error {
+	e.mu.Lock()
+	n := e.tx
+	e.tx++
+	fail := e.failTx[n] && e.close == 0
+	if fail {
+		delete(e.failTx, n)
+		e.txFailed++
+	}
+	e.mu.Unlock()
+	if fail {
+		return ErrTransient
+	}
 	err := e.MockEthernetInterface.SendPacket(dst, pkt)
 	if err == nil {
 		e.MockEthernetInterface.DrainBuffer()
@@ -133,6 +161,13 @@ func (e *Eth) Rx() (int, int) {
 	return e.rxIn, e.rxOut
 }
 
+// TxFaults returns (injected transmission failures that happened, injected failures still pending).
+func (e *Eth) TxFaults() (failed, pending int) {
+	e.mu.Lock()
+	defer e.mu.Unlock()
+	return e.txFailed, len(e.failTx)
+}
+
 func (e *Eth) Closed() bool {
 	e.mu.Lock()
 	defer e.mu.Unlock()
@@ -146,6 +181,17 @@ func (f *factory) New(name string, bpf *ethernet.BPF, llc ethernet.LLC) (etherne
 	h.mu.Lock()
 	defer h.mu.Unlock()
 	e := &Eth{MockEthernetInterface: ethernet.NewMockEthernetInterface(), h: h, name: name, gen: len(h.eths[name]) + 1}
+	for _, f := range h.SendFaults[name] {
+		if f.Gen != e.gen {
+			continue
+		}
+		if e.failTx == nil {
+			e.failTx = map[int]bool{}
+		}
+		for i := 0; i < f.Count; i++ {
+			e.failTx[f.From+i] = true
+		}
+	}
 	h.eths[name] = append(h.eths[name], e)
 	return e, nil
 }
@@ -192,6 +238,10 @@ type H struct {
 
 	// Unsettled counts Settle calls that hit the real-time cap.
 	Unsettled int
+
+	// SendFaults, set before the first device event, injects transient transmission failures into the
+	// ethernet handles created for an interface (keyed by interface name).
+	SendFaults map[string][]SendFault
 }
 
 func (h *H) record(e *Eth, pkt []byte) {
